@@ -4031,7 +4031,21 @@ class NetCDFRead(IORead):
                     ncvar, parent_ncvar=field_ncvar
                 )
 
-                if ncvar in g["auxiliary_coordinate"]:
+                # The construct depends on the geometry container of
+                # its parent (which provides the node coordinates), so
+                # an existing construct is only reused for a parent
+                # with the same geometry container
+                geometry_ncvar = self._get_geometry(
+                    field_ncvar, return_ncvar=True
+                )
+                cached_geometry = g.setdefault(
+                    "auxiliary_coordinate_geometry", {}
+                )
+
+                if (
+                    ncvar in g["auxiliary_coordinate"]
+                    and cached_geometry.get(ncvar) == geometry_ncvar
+                ):
                     # Copy the construct, and also any report on its
                     # components (e.g. bounds that could not be found)
                     coord = self._copy_construct(
@@ -4042,6 +4056,7 @@ class NetCDFRead(IORead):
                         field_ncvar, ncvar, f
                     )
                     g["auxiliary_coordinate"][ncvar] = coord
+                    cached_geometry[ncvar] = geometry_ncvar
 
                 # ----------------------------------------------------
                 # Turn a
